@@ -188,6 +188,44 @@ func (m *Model) RunKinds(s *Sink, rule string) {
 	} else {
 		s.Violation(rule, fnKey(oi)+"|exact key then upper-cased first letter", m.Pos(oi.Pos()), "property lookup does not try the exact key and then the key with its first letter upper-cased: struct fields are not reachable lower-cased (or map keys not exactly)")
 	}
+	// the fallback is skipped only for the empty name: an error return between the two lookups must imply idx == ""
+	if ok1 && ok2 {
+		ar := m.NewArith(oi)
+		var second *ssa.Lookup
+		for _, lk := range lookups {
+			if _, isBo := lk.Index.(*ssa.BinOp); isBo {
+				second = lk
+			}
+		}
+		okGuard := true
+		var badPos string
+		for _, b := range oi.Blocks {
+			ret, isRet := b.Instrs[len(b.Instrs)-1].(*ssa.Return)
+			if !isRet || second == nil || second.Block().Dominates(b) {
+				continue
+			}
+			c, isC := stripIface(ret.Results[0]).(*ssa.Call)
+			if !isC || c.Call.StaticCallee() == nil || c.Call.StaticCallee().Name() != "newError" {
+				continue
+			}
+			// the name parameter is the string parameter of the function
+			var idxPar *ssa.Parameter
+			for _, p := range oi.Params {
+				if isStringT(p.Type()) {
+					idxPar = p
+				}
+			}
+			if idxPar == nil || !ar.ProveValLE(ar.lenLin(idxPar, 0), 0, pointOf(ret)) {
+				okGuard = false
+				badPos = m.InstrPos(ret)
+			}
+		}
+		if okGuard {
+			s.OK(rule, fnKey(oi)+"|the fallback is tried for every non-empty name", m.Pos(oi.Pos()), "the only error return before the second lookup is under idx == \"\"")
+		} else {
+			s.Violation(rule, fnKey(oi)+"|the fallback is tried for every non-empty name", badPos, "property lookup gives up before trying the upper-cased first letter for some non-empty names (the guard is wider than idx == \"\"): e.g. one-letter struct fields are not reachable lower-cased")
+		}
+	}
 	missErr := false
 	for _, b := range oi.Blocks {
 		if r, ok := b.Instrs[len(b.Instrs)-1].(*ssa.Return); ok {
